@@ -287,6 +287,37 @@ func runC06(c *Ctx) {
 				clampStart = true
 			}
 		}
+		// the same clamps written with the min builtin: end = min(end, len(content)); start = min(start, end)
+		for _, st := range wrap.Body.List {
+			as, ok := st.(*ast.AssignStmt)
+			if !ok || as.Pos() < lastSub || as.Tok != token.ASSIGN || len(as.Lhs) != 1 || len(as.Rhs) != 1 {
+				continue
+			}
+			call, ok := as.Rhs[0].(*ast.CallExpr)
+			if !ok || len(call.Args) != 2 {
+				continue
+			}
+			if id, ok := call.Fun.(*ast.Ident); !ok || id.Name != "min" {
+				continue
+			}
+			l := types.ExprString(as.Lhs[0])
+			a, b := types.ExprString(call.Args[0]), types.ExprString(call.Args[1])
+			other := ""
+			switch {
+			case a == l:
+				other = b
+			case b == l:
+				other = a
+			default:
+				continue
+			}
+			if content != nil && other == "len("+content.Name()+")" {
+				clampEnd = true
+			}
+			if !strings.HasPrefix(other, "len(") && clampEnd {
+				clampStart = true
+			}
+		}
 		_, lastIsRet := wrap.Body.List[len(wrap.Body.List)-1].(*ast.ReturnStmt)
 		c.check(clampEnd && lastIsRet, "C06.R3", key+"|end-clamped-to-content", c.pos(wrap.Pos()), "end is clamped to len(content) after the prefix subtraction",
 			"the extraction wrapper no longer clamps `end` to len(content) after subtracting the synthetic prefix: go/parser positions past the input (error recovery) would slice out of range")
